@@ -1,0 +1,9 @@
+//go:build !verif
+
+// Verification hooks: without build tag verif the guarded call-outs are dead code.
+package kcp
+
+const verifHooks = false
+
+func verifPoolGet(bp *bufferPool) []byte { return nil }
+func verifPoolPut(buf []byte)            {}
